@@ -420,8 +420,9 @@ def check_same_seed_edit():
         (src / "sub").mkdir(parents=True)
         text = "# Soup for 2\n\nAdd {2} eggs.\n\n    %s leeks\n    boil(leeks, {3} l water)\n"
         (src / "soup.md").write_text(text % "100g")
-        (src / "sub" / "broth.md").write_text("# Broth\n\n    1 kg bones\n")
-        for seed in (1234, 0):
+        for seed in (1234, 0, 77):
+            if seed == 77:      # (with a second document: whatever is compiled first draws first)
+                (src / "sub" / "broth.md").write_text("# Broth\n\n    1 kg bones\n")
             pyrandom.seed(seed)
             generate_static_site(src, scratch / ("first%d" % seed), 4)
             (src / "soup.md").write_text((text % "250g").replace("{2}", "{5}").replace("{3}", "{7}"))
